@@ -10,6 +10,8 @@ import SharkVerif.Model.Contrib
 namespace SharkVerif.HV
 open SharkVerif.Pareto
 
+/-! ### C. HypervolumeContributionMD: the compaction loop of `restrictSet` -/
+
 theorem get_mid {α} (A R : List α) (x : α) (h : A.length < (A ++ x :: R).length) :
     (A ++ x :: R)[A.length] = x := by
   rw [List.getElem_append_right (Nat.le_refl _)]; simp
@@ -420,5 +422,251 @@ example :
     (∀ p ∈ S, p.length = 3) ∧ r.length = 3 ∧ (∀ p ∈ S, leAll p r = true) ∧
     ((List.range S.length).map fun i => (contribSpec S r i, i)) = [(0, 0), (2, 1), (2, 2), (0, 3), (0, 4)] := by
   decide
+
+/-! ### B. HypervolumeContribution2D -/
+
+/-- closed form of the sweep on a front with non-increasing second coordinate -/
+def stairSum (r0 : Int) : Int → List Pt → Int
+  | _, [] => 0
+  | last, p :: rest => (r0 - px p) * (last - py p) + stairSum r0 (py p) rest
+
+theorem sweep2d_eq_stairSum (r0 : Int) : ∀ (L : List Pt) (last : Int),
+    L.Pairwise (fun a b => py b ≤ py a) → (∀ p ∈ L, py p ≤ last) → sweep2d r0 last L = stairSum r0 last L
+  | [], _, _, _ => rfl
+  | p :: rest, last, hs, hl => by
+    have hs' := List.pairwise_cons.mp hs
+    have ih := sweep2d_eq_stairSum r0 rest (py p) hs'.2 hs'.1
+    have hp := hl p List.mem_cons_self
+    rw [sweep2d, stairSum]
+    split
+    · rw [ih]
+    · have e : last = py p := by omega
+      rw [← e] at ih ⊢
+      rw [ih]; simp
+
+/-- `front[i+1].f1` -/
+def nextX (r0 : Int) : List Pt → Int
+  | [] => r0
+  | q :: _ => px q
+
+/-- `front[i-1].f2` -/
+def prevY : Int → List Pt → Int
+  | last, [] => last
+  | _, a :: L => prevY (py a) L
+
+/-- removing one entry of the front changes the closed form by the rectangle of the C++ -/
+theorem stairSum_remove (r0 : Int) (p : Pt) (L2 : List Pt) : ∀ (L1 : List Pt) (last : Int),
+    stairSum r0 last (L1 ++ p :: L2) - stairSum r0 last (L1 ++ L2) =
+      (nextX r0 L2 - px p) * (prevY last L1 - py p)
+  | [], last => by
+    cases L2 with
+    | nil => simp [stairSum, nextX, prevY]
+    | cons q L2 =>
+      simp only [List.nil_append, stairSum, nextX, prevY]
+      grind
+  | a :: L1, last => by
+    have ih := stairSum_remove r0 p L2 L1 (py a)
+    simp only [List.cons_append, stairSum, prevY]
+    omega
+
+theorem contribs2dGo_map_snd (r0 : Int) : ∀ (Z : List (Pt × Nat)) (last : Int),
+    (contribs2dGo r0 last Z).map (·.2) = Z.map (·.2)
+  | [], _ => rfl
+  | (p, i) :: rest, last => by simp [contribs2dGo, contribs2dGo_map_snd r0 rest]
+
+/-- every reported pair is the rectangle of some position of the front -/
+theorem mem_contribs2dGo (r0 : Int) : ∀ (Z : List (Pt × Nat)) (last : Int) (c : Int × Nat),
+    c ∈ contribs2dGo r0 last Z → ∃ Z1 p i Z2, Z = Z1 ++ (p, i) :: Z2 ∧
+      c = ((nextX r0 (Z2.map (·.1)) - px p) * (prevY last (Z1.map (·.1)) - py p), i)
+  | [], _, c, h => by simp [contribs2dGo] at h
+  | (p, i) :: rest, last, c, h => by
+    simp only [contribs2dGo] at h
+    rcases List.mem_cons.mp h with h | h
+    · refine ⟨[], p, i, rest, rfl, ?_⟩
+      rw [h]
+      cases rest with
+      | nil => rfl
+      | cons q rest => rfl
+    · obtain ⟨Z1, p', i', Z2, hZ, hc⟩ := mem_contribs2dGo r0 rest (py p) c h
+      exact ⟨(p, i) :: Z1, p', i', Z2, by rw [hZ]; rfl, by rw [hc]; rfl⟩
+
+theorem lexLe_trans (a b c : Pt × Nat) : lexLe a b = true → lexLe b c = true → lexLe a c = true := by
+  simp only [lexLe, Bool.or_eq_true, Bool.and_eq_true, decide_eq_true_eq, beq_iff_eq]
+  omega
+
+theorem lexLe_total (a b : Pt × Nat) : (lexLe a b || lexLe b a) = true := by
+  simp only [lexLe, Bool.or_eq_true, Bool.and_eq_true, decide_eq_true_eq, beq_iff_eq]
+  omega
+
+/-- two mutually non-dominated 2-D points in lexicographic order form a descending stair -/
+theorem stair_of_lexLe {a b : Pt × Nat} (ha : a.1.length = 2) (hb : b.1.length = 2)
+    (hnd : dominates a.1 b.1 = false) (hlex : lexLe a b = true) :
+    px a.1 ≤ px b.1 ∧ py b.1 ≤ py a.1 := by
+  simp only [lexLe, Bool.or_eq_true, Bool.and_eq_true, decide_eq_true_eq, beq_iff_eq] at hlex
+  refine ⟨by omega, ?_⟩
+  apply Decidable.byContradiction
+  intro hlt
+  have h1 : leAll a.1 b.1 = true := (leAll_2d ha hb).mpr ⟨by omega, by omega⟩
+  have h2 : leAll b.1 a.1 = false := by
+    cases h : leAll b.1 a.1 with
+    | false => rfl
+    | true => have := (leAll_2d hb ha).mp h; omega
+  simp [dominates, h1, h2] at hnd
+
+theorem map_eraseIdx' {α β} (f : α → β) : ∀ (l : List α) (i : Nat), (l.eraseIdx i).map f = (l.map f).eraseIdx i
+  | [], _ => rfl
+  | _ :: _, 0 => rfl
+  | a :: l, i + 1 => by simp [map_eraseIdx' f l i]
+
+/-- an entry `(p, i)` of a permutation of the indexed points splits the point set -/
+theorem eraseIdx_perm_of_zipIdx {S : List Pt} {Z1 Z2 : List (Pt × Nat)} {p : Pt} {i : Nat}
+    (hperm : (Z1 ++ (p, i) :: Z2).Perm S.zipIdx) :
+    i < S.length ∧ (S.eraseIdx i).Perm ((Z1 ++ Z2).map (·.1)) := by
+  have hm : (p, i) ∈ S.zipIdx := hperm.mem_iff.mp (by simp)
+  obtain ⟨hi, hp⟩ := List.mem_zipIdx' hm
+  refine ⟨hi, ?_⟩
+  have hi' : i < S.zipIdx.length := by simpa using hi
+  have hget : S.zipIdx[i] = (p, i) := by rw [List.getElem_zipIdx]; simp [hp]
+  have h1 := perm_cons_eraseIdx S.zipIdx i hi'
+  rw [hget] at h1
+  have h2 : (S.zipIdx.eraseIdx i).Perm (Z1 ++ Z2) :=
+    ((h1.symm.trans hperm.symm).trans List.perm_middle).cons_inv
+  have h3 := h2.map (·.1)
+  rw [map_eraseIdx'] at h3
+  have : S.zipIdx.map (·.1) = S := List.zipIdx_map_fst 0 S
+  rw [this] at h3
+  exact h3
+
+/-- **`HypervolumeContribution2D` on a mutually non-dominated set, for every outcome of the
+lexicographic `std::sort`**: the reported pairs are `(contribSpec S r i, i)`, each index once -/
+theorem contribs2dGo_eq_spec {S : List Pt} {r : Pt} (hS : ∀ p ∈ S, p.length = 2) (hr : r.length = 2)
+    (hle : ∀ p ∈ S, leAll p r = true) (hnd : ∀ p ∈ S, ∀ q ∈ S, dominates p q = false)
+    (Z : List (Pt × Nat)) (hperm : Z.Perm S.zipIdx) (hsort : Z.Pairwise fun a b => lexLe a b = true) :
+    ((contribs2dGo (px r) (py r) Z).map (·.2)).Perm (List.range S.length) ∧
+    ∀ c ∈ contribs2dGo (px r) (py r) Z, c.1 = contribSpec S r c.2 := by
+  constructor
+  · rw [contribs2dGo_map_snd, List.range_eq_range', ← List.zipIdx_map_snd 0 S]
+    exact hperm.map _
+  · intro c hc
+    obtain ⟨Z1, p, i, Z2, hZ, rfl⟩ := mem_contribs2dGo _ _ _ _ hc
+    subst hZ
+    have hmemS : ∀ z ∈ Z1 ++ (p, i) :: Z2, z.1 ∈ S := by
+      intro z hz
+      have := (List.mem_zipIdx' (hperm.mem_iff.mp hz : (z.1, z.2) ∈ S.zipIdx)).2
+      rw [this]; exact List.getElem_mem _
+    -- the front is a descending stair
+    have hstair : (Z1 ++ (p, i) :: Z2).Pairwise fun a b => px a.1 ≤ px b.1 ∧ py b.1 ≤ py a.1 :=
+      hsort.imp_of_mem fun {a b} ha hb hab =>
+        stair_of_lexLe (hS _ (hmemS a ha)) (hS _ (hmemS b hb)) (hnd _ (hmemS a ha) _ (hmemS b hb)) hab
+    have hstairL : ((Z1 ++ (p, i) :: Z2).map (·.1)).Pairwise fun a b => px a ≤ px b ∧ py b ≤ py a :=
+      List.pairwise_map.mpr hstair
+    have hpermL : ((Z1 ++ (p, i) :: Z2).map (·.1)).Perm S := by
+      have := hperm.map (·.1)
+      rwa [show S.zipIdx.map (·.1) = S from List.zipIdx_map_fst 0 S] at this
+    obtain ⟨hi, hperm'⟩ := eraseIdx_perm_of_zipIdx hperm
+    have hsub : ((Z1 ++ Z2).map (·.1)).Sublist ((Z1 ++ (p, i) :: Z2).map (·.1)) :=
+      ((List.sublist_cons_self _ _).append_left _).map _
+    have hstairL' := hstairL.sublist hsub
+    -- both hypervolumes by the sweep
+    have key : ∀ L : List Pt, (∀ q ∈ L, q ∈ S) → (L.Pairwise fun a b => px a ≤ px b ∧ py b ≤ py a) →
+        (hvSpec L r : Int) = stairSum (px r) (py r) L := by
+      intro L hL hst
+      have hy : ∀ q ∈ L, py q ≤ py r := fun q hq => ((leAll_2d (hS q (hL q hq)) hr).mp (hle q (hL q hq))).2
+      rw [← hv2dSorted_eq_spec (hst.imp fun h => h.1) (fun q hq => hS q (hL q hq)) hr
+        (fun q hq => hle q (hL q hq)), hv2dSorted_eq_sweep hy,
+        sweep2d_eq_stairSum _ _ _ (hst.imp fun h => h.2) hy]
+    have e1 := key _ (fun q hq => hpermL.mem_iff.mp hq) hstairL
+    have e2 := key _ (fun q hq => hpermL.mem_iff.mp (hsub.subset hq)) hstairL'
+    unfold contribSpec
+    rw [hvSpec_perm hperm', ← hvSpec_perm hpermL, e1, e2]
+    simp only [List.map_append, List.map_cons]
+    rw [stairSum_remove]
+
+theorem lexSorted_mergeSort (T : List (Pt × Nat)) : (T.mergeSort lexLe).Pairwise fun a b => lexLe a b = true :=
+  List.pairwise_mergeSort lexLe_trans lexLe_total T
+
+theorem contribs2d_eq_spec {S : List Pt} {r : Pt} (hS : ∀ p ∈ S, p.length = 2) (hr : r.length = 2)
+    (hle : ∀ p ∈ S, leAll p r = true) (hnd : ∀ p ∈ S, ∀ q ∈ S, dominates p q = false) :
+    ((contribs2d S r).map (·.2)).Perm (List.range S.length) ∧
+    ∀ c ∈ contribs2d S r, c.1 = contribSpec S r c.2 :=
+  contribs2dGo_eq_spec hS hr hle hnd _ (List.mergeSort_perm _ _) (lexSorted_mergeSort _)
+
+/-- non-vacuity: a front with a duplicate (indices 2, 3) -/
+example :
+    let S : List Pt := [[2, 0], [0, 2], [1, 1], [1, 1]]
+    let r : Pt := [3, 3]
+    (∀ p ∈ S, p.length = 2) ∧ r.length = 2 ∧ (∀ p ∈ S, leAll p r = true) ∧
+    (∀ p ∈ S, ∀ q ∈ S, dominates p q = false) ∧
+    contribs2d S r = [(1, 1), (0, 2), (0, 3), (1, 0)] ∧
+    ((List.range S.length).map fun i => contribSpec S r i) = [1, 1, 0, 0] := by
+  refine ⟨by decide, by decide, by decide, by decide, ?_, by decide⟩
+  simp [contribs2d, contribs2dGo, lexLe, px, py, List.zipIdx, List.mergeSort,
+    List.MergeSort.Internal.splitInTwo]
+
+/-- the non-domination hypothesis cannot be dropped: with the dominated point `[1, 1]` the
+routine reports `2` and `-1` where the true contributions are `3` and `0` -/
+theorem contribs2d_needs_nondominated :
+    ∃ (S : List Pt) (r : Pt), (∀ p ∈ S, p.length = 2) ∧ r.length = 2 ∧ (∀ p ∈ S, leAll p r = true) ∧
+      ¬ ∀ c ∈ contribs2d S r, c.1 = contribSpec S r c.2 := by
+  refine ⟨[[0, 0], [1, 1]], [2, 2], by decide, by decide, by decide, ?_⟩
+  have h1 : contribs2d [[0, 0], [1, 1]] [2, 2] = [(2, 0), (-1, 1)] := by
+    simp [contribs2d, contribs2dGo, lexLe, px, py, List.zipIdx, List.mergeSort,
+      List.MergeSort.Internal.splitInTwo]
+  have h2 : contribSpec [[0, 0], [1, 1]] [2, 2] 0 = 3 := by decide
+  intro h
+  have := h (2, 0) (by rw [h1]; simp)
+  rw [h2] at this
+  exact absurd this (by decide)
+
+/-- without the hypothesis even the *selection* is wrong: here the routine reports the only
+non-dominated point (index 0, true contribution 4) as the least contributor, with key 0 -/
+theorem smallest2d_wrong_without_nondominated :
+    smallest2d [[0, 0], [0, 1], [0, 1]] 1 [4, 4] = [(0, 0)] ∧
+    contribSpec [[0, 0], [0, 1], [0, 1]] [4, 4] 0 = 4 ∧ contribSpec [[0, 0], [0, 1], [0, 1]] [4, 4] 1 = 0 := by
+  refine ⟨?_, by decide, by decide⟩
+  simp [smallest2d, smallestOf, sortKV, contribs2d, contribs2dGo, lexLe, px, py,
+    List.zipIdx, List.mergeSort, List.MergeSort.Internal.splitInTwo]
+
+theorem smallest2d_least_contributor {S : List Pt} {r : Pt} (hne : S ≠ []) (hS : ∀ p ∈ S, p.length = 2)
+    (hr : r.length = 2) (hle : ∀ p ∈ S, leAll p r = true)
+    (hnd : ∀ p ∈ S, ∀ q ∈ S, dominates p q = false) :
+    ∃ i, i < S.length ∧ smallest2d S 1 r = [(contribSpec S r i, i)] ∧
+      ∀ j, j < S.length → contribSpec S r i ≤ contribSpec S r j := by
+  obtain ⟨h1, h2⟩ := contribs2d_eq_spec hS hr hle hnd
+  exact indexed_smallestOf h1 h2 (List.length_pos_iff.mpr hne)
+
+theorem largest2d_greatest_contributor {S : List Pt} {r : Pt} (hne : S ≠ []) (hS : ∀ p ∈ S, p.length = 2)
+    (hr : r.length = 2) (hle : ∀ p ∈ S, leAll p r = true)
+    (hnd : ∀ p ∈ S, ∀ q ∈ S, dominates p q = false) :
+    ∃ i, i < S.length ∧ largest2d S 1 r = [(contribSpec S r i, i)] ∧
+      ∀ j, j < S.length → contribSpec S r j ≤ contribSpec S r i := by
+  obtain ⟨h1, h2⟩ := contribs2d_eq_spec hS hr hle hnd
+  exact indexed_largestOf h1 h2 (List.length_pos_iff.mpr hne)
+
+/-- the same for **every** outcome of the two unstable `std::sort` calls of the C++
+(`Z`: the lexicographically sorted front, `L`: the key-sorted contributions) -/
+theorem least_contributor_2d_any_sort {S : List Pt} {r : Pt} (hne : S ≠ []) (hS : ∀ p ∈ S, p.length = 2)
+    (hr : r.length = 2) (hle : ∀ p ∈ S, leAll p r = true)
+    (hnd : ∀ p ∈ S, ∀ q ∈ S, dominates p q = false)
+    (Z : List (Pt × Nat)) (hZp : Z.Perm S.zipIdx) (hZs : Z.Pairwise fun a b => lexLe a b = true)
+    (L : List KV) (hLp : L.Perm (contribs2dGo (px r) (py r) Z)) (hLs : L.Pairwise fun a b => a.1 ≤ b.1) :
+    (∃ i, i < S.length ∧ L.take 1 = [(contribSpec S r i, i)] ∧
+      ∀ j, j < S.length → contribSpec S r i ≤ contribSpec S r j) ∧
+    (∃ i, i < S.length ∧ (L.drop (S.length - 1)).reverse = [(contribSpec S r i, i)] ∧
+      ∀ j, j < S.length → contribSpec S r j ≤ contribSpec S r i) := by
+  obtain ⟨h1, h2⟩ := contribs2dGo_eq_spec hS hr hle hnd Z hZp hZs
+  have hn := List.length_pos_iff.mpr hne
+  have hlen : (contribs2dGo (px r) (py r) Z).length = S.length := by
+    have := h1.length_eq
+    simpa using this
+  refine ⟨indexed_argmin_sorted h1 h2 hn hLp hLs, ?_⟩
+  have := indexed_argmax_sorted h1 h2 hn hLp hLs
+  rwa [hlen] at this
+
+example : smallest2d [[2, 0], [0, 2], [1, 1], [1, 1]] 1 [3, 3] = [(0, 2)] ∧
+    largest2d [[3, 0], [0, 3], [1, 1]] 1 [4, 4] = [(4, 2)] := by
+  constructor <;>
+  simp [smallest2d, largest2d, smallestOf, largestOf, sortKV, contribs2d, contribs2dGo, lexLe, px, py,
+    List.zipIdx, List.mergeSort, List.MergeSort.Internal.splitInTwo]
 
 end SharkVerif.HV
